@@ -637,7 +637,7 @@ func describeBytes(v ssa.Value) string {
 }
 
 func isParamOf(v ssa.Value, fn *ssa.Function) bool {
-	p, ok := v.(*ssa.Parameter)
+	p, ok := origin(v).(*ssa.Parameter)
 	return ok && p.Parent() == fn
 }
 
